@@ -15,107 +15,109 @@ Local Open Scope N_scope.
 
 (** data and extended-data packets: each carries 1..rmp bytes, and all together never more than the
     window the peer has granted so far (initial window + every WINDOW_ADJUST received) *)
-Theorem sent_never_exceeds_window_or_maxpacket : forall hook rmp lws lmp rw ops, 0 < rmp ->
-  let s := run true hook rmp lws lmp (init rw lws) ops in
+Theorem sent_never_exceeds_window_or_maxpacket : forall hook radj rmp lws lmp rw ops, 0 < rmp ->
+  let s := run true hook radj rmp lws lmp (init rw lws) ops in
   sent (log s) <= rw + granted ops /\ Forall (pkt_ok rmp) (log s).
-Proof. intros hook rmp lws lmp rw ops H. exact (T_window rmp lws lmp hook H rw ops). Qed.
+Proof. intros hook radj rmp lws lmp rw ops H. exact (T_window rmp lws lmp hook radj H rw ops). Qed.
 Print Assumptions sent_never_exceeds_window_or_maxpacket.
 
 (** [hook] is what the application's startWriting() does synchronously (any list of write / writeExtended calls);
     [hwritten] / [hxwritten] (Model.v) list everything handed to write() / writeExtended() along the history in call
     order, the calls made from inside startWriting() included; with [hook = []] they are [written ops] / [xwritten ops]. *)
-Theorem written_without_hook : forall rmp lws lmp ops s,
-  hwritten true [] rmp lws lmp s ops = written ops /\ hxwritten true [] rmp lws lmp s ops = xwritten ops.
-Proof. intros rmp lws lmp ops s. exact (hwritten_no_hook rmp lws lmp [] eq_refl ops s). Qed.
+Theorem written_without_hook : forall radj rmp lws lmp ops s,
+  hwritten true [] radj rmp lws lmp s ops = written ops /\ hxwritten true [] radj rmp lws lmp s ops = xwritten ops.
+Proof. intros radj rmp lws lmp ops s. exact (hwritten_no_hook rmp lws lmp [] radj eq_refl ops s). Qed.
 Print Assumptions written_without_hook.
 
 (** the re-entrant case: a WINDOW_ADJUST that wakes the application up (channel known to the connection, not writing,
     no close pending) while data is buffered.  Whatever startWriting() writes synchronously is placed BEHIND the
     backlog of its stream: (sent ++ buffered) afterwards = (sent ++ buffered) before ++ the hook's data. *)
-Theorem reentrant_writes_go_behind_the_backlog : forall hook rmp lws lmp s n, 0 < rmp ->
+Theorem reentrant_writes_go_behind_the_backlog : forall hook radj rmp lws lmp s n, 0 < rmp ->
   lclosed s = false -> live s = true -> writing s = false -> closing s = false ->
-  let s' := step true hook rmp lws lmp s (RAdjust n) in
+  let s' := step true hook radj rmp lws lmp s (RAdjust n) in
   dbytes (log s') ++ buf s' = (dbytes (log s) ++ buf s) ++ hook_w hook /\
   xbytes (log s') ++ flatx (ext s') = (xbytes (log s) ++ flatx (ext s)) ++ hook_x hook.
-Proof. intros hook rmp lws lmp s n H. exact (T_reentrant rmp lws lmp hook H s n). Qed.
+Proof. intros hook radj rmp lws lmp s n H. exact (T_reentrant rmp lws lmp hook radj H s n). Qed.
 Print Assumptions reentrant_writes_go_behind_the_backlog.
 
 (** until CLOSE is sent: what was sent followed by what is still buffered is exactly what was written,
     per stream, in order (extended data as (type, byte) pairs, independent of packet boundaries);
     and as soon as the granted window covers everything written, everything has been sent *)
-Theorem streams_complete_in_order_given_window : forall hook rmp lws lmp rw ops, 0 < rmp ->
-  let s := run true hook rmp lws lmp (init rw lws) ops in
+Theorem streams_complete_in_order_given_window : forall hook radj rmp lws lmp rw ops, 0 < rmp ->
+  let s := run true hook radj rmp lws lmp (init rw lws) ops in
   lclosed s = false ->
-  let w := hwritten true hook rmp lws lmp (init rw lws) ops in
-  let x := hxwritten true hook rmp lws lmp (init rw lws) ops in
+  let w := hwritten true hook radj rmp lws lmp (init rw lws) ops in
+  let x := hxwritten true hook radj rmp lws lmp (init rw lws) ops in
   dbytes (log s) ++ buf s = w /\ xbytes (log s) ++ flatx (ext s) = x /\
   (len w + len x <= rw + granted ops ->
    buf s = [] /\ flatx (ext s) = [] /\ dbytes (log s) = w /\ xbytes (log s) = x).
-Proof. intros hook rmp lws lmp rw ops H. exact (T_streams rmp lws lmp hook H rw ops). Qed.
+Proof. intros hook radj rmp lws lmp rw ops H. exact (T_streams rmp lws lmp hook radj H rw ops). Qed.
 Print Assumptions streams_complete_in_order_given_window.
 
 (** no window is left unused while anything is buffered *)
-Theorem no_window_unused_while_buffered : forall hook rmp lws lmp rw ops, 0 < rmp ->
-  let s := run true hook rmp lws lmp (init rw lws) ops in
+Theorem no_window_unused_while_buffered : forall hook radj rmp lws lmp rw ops, 0 < rmp ->
+  let s := run true hook radj rmp lws lmp (init rw lws) ops in
   (buf s <> [] \/ ext s <> []) -> rwl s = 0.
-Proof. intros hook rmp lws lmp rw ops H. exact (T_unused rmp lws lmp hook H rw ops). Qed.
+Proof. intros hook radj rmp lws lmp rw ops H. exact (T_unused rmp lws lmp hook radj H rw ops). Qed.
 Print Assumptions no_window_unused_while_buffered.
 
 (** the operation that makes the channel send CLOSE (other than the peer overrunning our window, which
     closes at once) leaves both buffers empty, and everything ever written has been sent before it *)
-Theorem close_only_after_buffers_empty : forall hook rmp lws lmp rw ops o, 0 < rmp ->
-  let s := run true hook rmp lws lmp (init rw lws) ops in
-  let s' := step true hook rmp lws lmp s o in
+Theorem close_only_after_buffers_empty : forall hook radj rmp lws lmp rw ops o, 0 < rmp ->
+  let s := run true hook radj rmp lws lmp (init rw lws) ops in
+  let s' := step true hook radj rmp lws lmp s o in
   lclosed s = false -> lclosed s' = true -> overruns lmp s o = false ->
   buf s' = [] /\ ext s' = [] /\
-  dbytes (log s') = hwritten true hook rmp lws lmp (init rw lws) (ops ++ [o]) /\
-  xbytes (log s') = hxwritten true hook rmp lws lmp (init rw lws) (ops ++ [o]).
-Proof. intros hook rmp lws lmp rw ops o H. exact (T_close rmp lws lmp hook H rw ops o). Qed.
+  dbytes (log s') = hwritten true hook radj rmp lws lmp (init rw lws) (ops ++ [o]) /\
+  xbytes (log s') = hxwritten true hook radj rmp lws lmp (init rw lws) (ops ++ [o]).
+Proof. intros hook radj rmp lws lmp rw ops o H. exact (T_close rmp lws lmp hook radj H rw ops o). Qed.
 Print Assumptions close_only_after_buffers_empty.
 
 (** CLOSE is sent at most once, and after it no packet of any kind is sent for this channel *)
-Theorem close_sent_at_most_once_and_last : forall hook rmp lws lmp rw ops o, 0 < rmp ->
-  let s := run true hook rmp lws lmp (init rw lws) ops in
+Theorem close_sent_at_most_once_and_last : forall hook radj rmp lws lmp rw ops o, 0 < rmp ->
+  let s := run true hook radj rmp lws lmp (init rw lws) ops in
   closes (log s) = (if lclosed s then 1 else 0)%nat /\
   (lclosed s = true ->
-   lclosed (step true hook rmp lws lmp s o) = true /\ pkts (log (step true hook rmp lws lmp s o)) = pkts (log s)).
-Proof. intros hook rmp lws lmp rw ops o H. exact (T_once rmp lws lmp hook H rw ops o). Qed.
+   lclosed (step true hook radj rmp lws lmp s o) = true /\ pkts (log (step true hook radj rmp lws lmp s o)) = pkts (log s)).
+Proof. intros hook radj rmp lws lmp rw ops o H. exact (T_once rmp lws lmp hook radj H rw ops o). Qed.
 Print Assumptions close_sent_at_most_once_and_last.
 
 (** a requested close is not forgotten: once nothing is buffered, CLOSE has been sent *)
-Theorem requested_close_sent_once_flushed : forall hook rmp lws lmp rw ops, 0 < rmp ->
-  let s := run true hook rmp lws lmp (init rw lws) ops in
+Theorem requested_close_sent_once_flushed : forall hook radj rmp lws lmp rw ops, 0 < rmp ->
+  let s := run true hook radj rmp lws lmp (init rw lws) ops in
   closing s = true -> buf s = [] -> ext s = [] -> lclosed s = true.
-Proof. intros hook rmp lws lmp rw ops H. exact (T_close_sent rmp lws lmp hook H rw ops). Qed.
+Proof. intros hook radj rmp lws lmp rw ops H. exact (T_close_sent rmp lws lmp hook radj H rw ops). Qed.
 Print Assumptions requested_close_sent_once_flushed.
 
 (** the receiver's window is what the peer computes from the messages it saw (local window + every
     WINDOW_ADJUST we sent, automatic or requested by the application - bytes we accepted), i.e. the
     ADVERTISED total, not anything capped at localWindowSize; hence a packet within that window and the max packet
-    size is delivered (after at most one WINDOW_ADJUST), never answered with CLOSE *)
-Theorem compliant_peer_never_refused : forall hook rmp lws lmp rw ops d, 0 < rmp ->
-  let s := run true hook rmp lws lmp (init rw lws) ops in
+    size is delivered (after at most one automatic WINDOW_ADJUST, followed by the one the application may send from
+    inside dataReceived/extReceived: [radj]), never answered with CLOSE *)
+Theorem compliant_peer_never_refused : forall hook radj rmp lws lmp rw ops d, 0 < rmp ->
+  let s := run true hook radj rmp lws lmp (init rw lws) ops in
   lwl s + recvd (log s) = lws + adjusted (log s) /\
   (live s = true -> len d <= lmp -> recvd (log s) + len d <= lws + adjusted (log s) ->
    forall cb,
-   lclosed (recv_data lws lmp s cb d) = lclosed s /\
-   exists pre, log (recv_data lws lmp s cb d) = log s ++ pre ++ [cb d] /\ pkts pre = pre /\
-               closes pre = 0%nat /\ (pre = [] \/ exists n, pre = [PAdjust n])).
-Proof. intros hook rmp lws lmp rw ops d H. exact (T_compliant rmp lws lmp hook H rw ops d). Qed.
+   lclosed (recv_data radj lws lmp s cb d) = lclosed s /\
+   exists pre post, log (recv_data radj lws lmp s cb d) = log s ++ pre ++ [cb d] ++ post /\
+               pkts pre = pre /\ closes pre = 0%nat /\ (pre = [] \/ exists n, pre = [PAdjust n]) /\
+               closes post = 0%nat /\ (post = [] \/ exists n, post = [PAdjust n])).
+Proof. intros hook radj rmp lws lmp rw ops d H. exact (T_compliant rmp lws lmp hook radj H rw ops d). Qed.
 Print Assumptions compliant_peer_never_refused.
 
 (** Full statement: "while the channel is open the advertised window is never 0, for every local
     window lws >= 1".  False for lws = 1 (refuted below: localWindowSize // 2 = 0, so the window is
     never replenished); proved for lws >= 2. *)
-Theorem window_replenished_partial : forall hook rmp lws lmp rw ops, 0 < rmp -> 2 <= lws ->
-  let s := run true hook rmp lws lmp (init rw lws) ops in
+Theorem window_replenished_partial : forall hook radj rmp lws lmp rw ops, 0 < rmp -> 2 <= lws ->
+  let s := run true hook radj rmp lws lmp (init rw lws) ops in
   lclosed s = false -> 1 <= lwl s.
-Proof. intros hook rmp lws lmp rw ops H H2. exact (fun Ho => T_replenish rmp lws lmp hook H rw ops H2 Ho). Qed.
+Proof. intros hook radj rmp lws lmp rw ops H H2. exact (fun Ho => T_replenish rmp lws lmp hook radj H rw ops H2 Ho). Qed.
 Print Assumptions window_replenished_partial.
 
 Theorem window_replenished_refuted : exists rmp lws lmp rw ops,
   0 < rmp /\ 1 <= lws /\
-  let s := run true [] rmp lws lmp (init rw lws) ops in
+  let s := run true [] None rmp lws lmp (init rw lws) ops in
   lclosed s = false /\ live s = true /\ lwl s = 0 /\ adjusted (log s) = 0 /\
   forall d, d <> [] -> overruns lmp s (RData d) = true.
 Proof. exact window_1_stuck. Qed.
@@ -125,10 +127,10 @@ Print Assumptions window_replenished_refuted.
     and that entry is then dropped *)
 Theorem pinned_code_closes_before_extbuf_flushed : exists rmp lws lmp rw ops o,
   0 < rmp /\
-  let s := run false [] rmp lws lmp (init rw lws) ops in
-  let s' := step false [] rmp lws lmp s o in
+  let s := run false [] None rmp lws lmp (init rw lws) ops in
+  let s' := step false [] None rmp lws lmp s o in
   lclosed s = false /\ lclosed s' = true /\ overruns lmp s o = false /\
   xbytes (log s') <> xwritten (ops ++ [o]) /\
-  forall more, xbytes (log (run false [] rmp lws lmp s' more)) = xbytes (log s').
+  forall more, xbytes (log (run false [] None rmp lws lmp s' more)) = xbytes (log s').
 Proof. exact pinned_witness. Qed.
 Print Assumptions pinned_code_closes_before_extbuf_flushed.
